@@ -25,11 +25,12 @@ type bctx struct {
 type retKind int
 
 const (
-	retSame  retKind = iota // the value argument (toJSON: this) unchanged
-	retUndef                // undefined
-	retNum                  // a number
-	retStr                  // a string
-	retObj                  // a fresh object {"k":1,"a":2}
+	retSame   retKind = iota // the value argument (toJSON: this) unchanged
+	retUndef                 // undefined
+	retNum                   // a number
+	retStr                   // a string
+	retObj                   // a fresh object {"k":1,"a":2}
+	retTarget                // the object marked as target in the value description (the SAME object every time)
 )
 
 type ret struct {
@@ -80,6 +81,13 @@ var behaviours = []behaviour{
 	{"toUndef", func(c bctx) ret { return ret{kind: retUndef} }},
 	{"echoKey", func(c bctx) ret { return ret{kind: retStr, s: "key=" + c.key} }},
 	{"toObj", func(c bctx) ret { return ret{kind: retObj} }},
+	{"toTarget", func(c bctx) ret { return ret{kind: retTarget} }},
+	{"replTarget", func(c bctx) ret {
+		if c.key == "" {
+			return ret{kind: retSame}
+		}
+		return ret{kind: retTarget}
+	}},
 }
 
 func behaviourByName(name string) *behaviour {
@@ -168,6 +176,11 @@ func (h *hostModel) fn(mode, name string) *rj.Obj {
 			o.Put(rj.K("k"), rj.Num(1))
 			o.Put(rj.K("a"), rj.Num(2))
 			return rj.ObjV(o)
+		case retTarget:
+			if h.target == nil {
+				return rj.Undef
+			}
+			return rj.ObjV(h.target)
 		}
 		return val
 	})
@@ -242,6 +255,9 @@ func (d *drv) host(mode string, b *behaviour) func(call otto.FunctionCall) otto.
 				panic(err)
 			}
 			return o.Value()
+		case retTarget:
+			t, _ := d.vm.Get("__target")
+			return t
 		}
 		return valV
 	}
